@@ -406,13 +406,13 @@ func main() {
         # what /repo emitted for this overload
         cn = bytes.fromhex(m["CN"]).decode() if m.get("CN", "-") != "-" else None
         if cn is not None:
-            emitted_const = "CN=%s CV=%s" % (m["CN"], r["consts"].get(cn, "<no such constant>").encode().hex() or "-")
+            emitted_const = "CN=%s CV=%s" % (m["CN"], r.get("consts", {}).get(cn, "<no such constant>").encode().hex() or "-")
         else:
             # all candidates are literals: no Gopo_ constant may mention this overload
-            stray = [c for c in r["consts"] if c.endswith("_" + v.name)]
+            stray = [c for c in r.get("consts", {}) if c.endswith("_" + v.name)]
             emitted_const = "CN=- CV=-" if not stray else "CN=%s" % stray[0]
         prefix = (v.recv + "." if v.kind == "method" else "") + v.name + "__"
-        lits = sorted(f for f in r["funcs"] if f.startswith(prefix))
+        lits = sorted(f for f in r.get("funcs", []) if f.startswith(prefix))
         mlits = sorted(bytes.fromhex(x.split(":")[1]).decode() for x in m.get("LITS", "").split(",") if x)
         obs = observed.get(v.vid, {})
         got = ",".join("-" if obs.get(k) is None else str(obs[k]) for k in range(len(v.calls)))
